@@ -310,6 +310,21 @@ class Engine:
     def probe(self, name, n=1):
         self.rec.probes[name] += n
 
+    def state(self, *t):
+        """Record an abstract state (small tuple of buckets/flags) for the reach measure."""
+        self.rec.states.add(jdump(t))
+
+    def transition(self, *t):
+        """Record an abstract transition (event kind, outcome class, state bucket)."""
+        self.rec.transitions.add(jdump(t))
+
+    def seeded_plan(self, tier, base_seed, quick=(4000, 30), thorough=(400000, 60)):
+        """Run descriptors for a purely seeded engine: (number of runs, events per run) per tier.
+        Every third run is an 'avoidance' run (DESIGN 5.2): its generator never emits the trigger patterns of
+        known findings, so that resynchronisation after a known finding cannot hide a second bug on that path."""
+        runs, n = quick if tier == 'quick' else thorough
+        return [{'seed': base_seed * 1_000_003 + i, 'n': n, 'avoid': i % 3 == 2} for i in range(runs)]
+
     def fault(self, name, n=1):
         self.rec.faults[name] += n
 
